@@ -445,9 +445,10 @@ class Monitors:
         # overlaps
         dpos = np.array(disl.atoms.pos)
         pairs = OD.close_pairs(dpos, disl.box.vects, [line, motion], 0.5 * info['r0'])
+        okey = 'array:overlap:' + ('screw' if screw else 'edge-component')
         cross = [p for p in pairs if p[3]]
-        rec.check(not cross, 'no two atoms closer than r0/2 across the two in-plane periodic directions', 'array:overlap:across-boundary:' + ('screw' if screw else 'edge-component'), pairs=cross[:3], r0=info['r0'])
-        rec.check(not [p for p in pairs if not p[3]], 'no two atoms closer than r0/2 inside the cell', 'array:overlap:inside', pairs=pairs[:3], r0=info['r0'])
+        rec.check(not cross, 'no two atoms closer than r0/2 across the two in-plane periodic directions', okey, across=True, pairs=cross[:3], r0=info['r0'])
+        rec.check(not [p for p in pairs if not p[3]], 'no two atoms closer than r0/2 inside the cell', okey, across=False, pairs=pairs[:3], r0=info['r0'])
         # types and boundary
         nat = int(np.max(info['atype']))
         btype = np.array(base.atoms.atype)
@@ -576,8 +577,13 @@ def make_dislocation(ctx, am, cell, sc, Cd, mn, init_kw, as_vectors=False):
         d = am.defect.Dislocation(ucell, C, sc['burgers'], sc['xi'], sc['hkl'], conventional_setting=cell['setting'], m=m, n=n, **init_kw)
     except ValueError as e:
         hexc = cell['family'] == 'hcp' and np.linalg.norm(np.cross(OC.unit(OC.cart(OC.as3(sc['xi']), cell['vects'])), [0, 0, 1.0])) < 1e-9
+        may_be_oblique = tuple(mn) != ('y', 'z') and (sc.get('character') not in ('edge', 'screw') or '{123}' in sc['system'] or cell['family'] == 'hcp')
         if hexc and 'isotropic' in str(e):
             rec.refusal('init:hexagonal-line-along-c:no-elastic-solution')     # Stroh degenerate, isotropic solver refuses: C12's domain
+        elif may_be_oblique and 'isotropic' not in str(e):
+            # non-default axes + a line/plane for which no mutually orthogonal lattice vectors need exist: a refusal is
+            # the repaired behaviour for what is otherwise the known 'orientation:oblique' finding
+            rec.refusal('init:non-default-axes:cell-vectors-cannot-be-aligned')
         else:
             rec.fail('Dislocation can be constructed for a standard slip system', 'init:exception:ValueError', exception=e, system=sc['system'], xi=sc['xi'])
     except Exception as e:
